@@ -18,6 +18,8 @@
 //! server.
 mod atomic_base_time;
 pub mod nfs_voucher;
+#[cfg(woodpile_verif)]
+pub mod verif_shim;
 
 use std::io::Result;
 
